@@ -93,6 +93,7 @@ theorem C14_inv_step (T : Table) (w₀ w : World) (op : Op) (h : Inv w₀ w) : I
     intro n' c d hget
     exact h.docs n' c d (aget_filter_ne hget)
   | lookup c => exact h
+  | measure => exact h
 
 private theorem inv_run (T : Table) (w₀ : World) (ops : List Op) : ∀ w, Inv w₀ w → Inv w₀ (run T w ops).1 := by
   induction ops with
@@ -213,6 +214,7 @@ private theorem twicePairs_equal (T : Table) (ops : List Op) :
     | encoded _ => rw [hs] at hp; exact ih _ p hp
     | dropped => rw [hs] at hp; exact ih _ p hp
     | looked _ => rw [hs] at hp; exact ih _ p hp
+    | measured => rw [hs] at hp; exact ih _ p hp
     | noDoc => rw [hs] at hp; exact ih _ p hp
 
 private theorem encodeCtor_frames (T : Table) (w : World) (c : Ctor) : (encodeCtor T w c).1.frames = w.frames := by
